@@ -18,6 +18,7 @@ mod driver;
 mod hashseed;
 mod rng;
 mod sched;
+mod storage;
 
 use common::*;
 use driver::Engine;
@@ -26,9 +27,10 @@ static BUDGET: budget::BudgetEngine = budget::BudgetEngine;
 static BUILD: build::BuildEngine = build::BuildEngine;
 static SCHED: sched::SchedEngine = sched::SchedEngine;
 static PROPT: proptest::PropEngine = proptest::PropEngine;
+static STORAGE: storage::StorageEngine = storage::StorageEngine;
 
 fn engines() -> Vec<&'static dyn Engine> {
-    vec![&BUDGET, &BUILD, &SCHED, &PROPT]
+    vec![&BUDGET, &BUILD, &SCHED, &PROPT, &STORAGE]
 }
 
 fn find_engine(name: &str) -> Option<&'static dyn Engine> {
